@@ -232,3 +232,20 @@ O("C01.k.yd_to_md", ["C01", "C17"], "h_C01k.c", "h_C01_k_yd_to_md",
 O("C17.easter", ["C17", "C01"], "h_C01k.c", "h_C17_easter",
   "easter_get_yday equals the anonymous Gregorian computus for every year 1901..2099",
   ["easter_get_yday"], **K)
+
+# ------------------------------------------------------------------ C03
+P("C03", level="proof",
+  level_text="Contract of next_evmux on the real evstrm.c against abstract sorted child streams (every stream class's promised contract): ends iff all constituents ended, delivers a minimal head, consumes without delivering only duplicates of an earlier constituent, peek is idempotent, pop consumes the delivered occurrence, cache coherent. All head values and all peek/pop choices are symbolic; the number of constituents is fixed per obligation (2..4 quick, up to 6 thorough) because 'every s[i] is a valid child' is a universal hypothesis on array contents (no quantifiers on the installed back ends). Completeness over a whole history is lemma L-C03 (prose) over these per-call contracts.",
+  level_note="Trusted: CBMC semantics; the abstract child stream model (h_stream.h), substituted textually for the inline vtable wrappers; lemma L-C03. Bounded: number of constituents per obligation. Not covered: echse.c's stream registry (add_strm/rem_strm), varargs constructors beyond their allocation arithmetic.",
+  not_covered=["whole-history completeness (L-C03, prose)", "echse.c stream registry", "free/clone lifetimes"])
+for ns, tiers in ((2, ["quick", "thorough"]), (3, ["quick", "thorough"]), (4, ["quick", "thorough"]), (6, ["thorough"])):
+    O("C03.next_evmux.ns%d" % ns, ["C03", "C02"], "h_C03.c", "h_C03_next_evmux",
+      "next_evmux with %d constituents, symbolic heads and successors, peek or pop: end iff all ended; minimal head delivered; only duplicates of an earlier constituent consumed undelivered; peek idempotent; pop consumes; cache coherent" % ns,
+      ["next_evmux", "make_evmux"], defines=["-DHNS=%d" % ns], unwind=ns + 2, tiers=tiers,
+      solver=["minisat", "kissat"], timeout={"quick": 600, "thorough": 3600},
+      assumptions=["abstract child stream model h_stream.h stands for echs_evstrm_next/pop/free/clone (textual substitution of the inline wrappers)"],
+      native_srcs=["instant.c"])
+O("C03.mux.ctor", "C03", "h_C03.c", "h_C03_mux_ctor",
+  "echs_evstrm_mux_clon (varargs collector shared in shape with echs_evstrm_mux): memory safe for 1..5 streams, all streams become constituents in order",
+  ["echs_evstrm_mux_clon", "make_evmux"], kind="bounded", bound="1..5 variadic arguments", defines=["-DHNS=3"], unwind=8,
+  solver=["minisat", "kissat"], native_srcs=["instant.c"])
